@@ -351,4 +351,73 @@ theorem dStep_so (C : JCodec) (D : DOpts) (X : SchemaX) (mi : Nat) (limit : Int)
                    · exact .inr h
                    · exact .inl h.symm)
 
+theorem dMembers_cons (C : JCodec) (D : DOpts) (X : SchemaX) (mi : Nat) (limit : Int) (key : Str) (v : JV) (tl : JMembers)
+    (sn so : Ints) (m : Msg) :
+    dMembers C D X mi limit (.cons key v tl) sn so m =
+      match dHead D X (X.msg mi) limit key v sn so with
+      | .error e => .error e
+      | .skip sn' => dMembers C D X mi limit tl sn' so m
+      | .value fx sn' so' =>
+        match dFieldVal C D X mi fx limit m v with
+        | .error e => .error e
+        | .ok m' => dMembers C D X mi limit tl sn' so' m' := by
+  rw [dMembers]
+  rfl
+
+theorem dHead_skip_cases (D : DOpts) (X : SchemaX) (d : MsgX) (limit : Int) (key : Str) (v : JV) (sn so sn' : Ints)
+    (h : dHead D X d limit key v sn so = .skip sn') :
+    (resolveJSON X d key = .unknown ∧ D.discard = true ∧ skipJ limit 0 v = .ok () ∧ sn' = sn) ∨
+    (∃ fx, resolveJSON X d key = .found fx ∧ (v.isNull && !fx.valueMsg && !fx.nullEnum) = true ∧ sn' = sn.set fx.f.num) := by
+  unfold dHead at h
+  cases hr : resolveJSON X d key with
+  | badExt => simp [hr] at h
+  | unknown =>
+    simp only [hr] at h
+    split at h
+    · rename_i hd
+      cases hs : skipJ limit 0 v with
+      | error e => simp [hs] at h
+      | ok u => simp [hs] at h; exact .inl ⟨rfl, hd, rfl, h.symm⟩
+    · cases h
+  | found fx =>
+    simp only [hr] at h
+    split at h
+    · cases h
+    · split at h
+      · rename_i hn
+        cases h
+        exact .inr ⟨fx, rfl, hn, rfl⟩
+      · cases hc : fx.f.card <;> simp only [hc] at h <;> try cases h
+        all_goals (cases ho : fx.oneofIdx <;> simp only [ho] at h <;> first | cases h | (split at h <;> cases h))
+
+theorem dHead_value_cases (D : DOpts) (X : SchemaX) (d : MsgX) (limit : Int) (key : Str) (v : JV) (sn so sn' so' : Ints)
+    (fx : FieldX) (h : dHead D X d limit key v sn so = .value fx sn' so') :
+    resolveJSON X d key = .found fx ∧ (v.isNull && !fx.valueMsg && !fx.nullEnum) = false := by
+  unfold dHead at h
+  cases hr : resolveJSON X d key with
+  | badExt => simp [hr] at h
+  | unknown =>
+    simp only [hr] at h
+    split at h
+    · cases hs : skipJ limit 0 v with
+      | error e => simp [hs] at h
+      | ok u => simp [hs] at h
+    · cases h
+  | found gx =>
+    simp only [hr] at h
+    split at h
+    · cases h
+    · split at h
+      · cases h
+      · rename_i hn
+        have hn' : (v.isNull && !gx.valueMsg && !gx.nullEnum) = false := by simpa using hn
+        cases hc : gx.f.card <;> simp only [hc] at h
+        case repeated => cases h; exact ⟨rfl, hn'⟩
+        case map => cases h; exact ⟨rfl, hn'⟩
+        all_goals
+          (cases ho : gx.oneofIdx <;> simp only [ho] at h
+           · cases h; exact ⟨rfl, hn'⟩
+           · split at h
+             · cases h
+             · cases h; exact ⟨rfl, hn'⟩)
 end JT
